@@ -391,7 +391,7 @@ class TypedNode(Node):
         return self.add_child(
             child,
             kind=kind,
-            before=self.first_child(),
+            before=self.first_child(kind=ANY_KIND),
             deep=deep,
             data_id=data_id,
             node_id=node_id,
@@ -410,7 +410,12 @@ class TypedNode(Node):
         This method calls :meth:`add_child` on ``self.parent``.
         """
         return self._parent.add_child(
-            child, before=self, deep=deep, data_id=data_id, node_id=node_id
+            child,
+            kind=self.kind,
+            before=self,
+            deep=deep,
+            data_id=data_id,
+            node_id=node_id,
         )
 
     def append_sibling(
@@ -425,9 +430,14 @@ class TypedNode(Node):
 
         This method calls :meth:`add_child` on ``self.parent``.
         """
-        next_node = self.next_sibling
+        next_node = self.next_sibling(any_kind=True)
         return self._parent.add_child(
-            child, before=next_node, deep=deep, data_id=data_id, node_id=node_id
+            child,
+            kind=self.kind,
+            before=next_node,
+            deep=deep,
+            data_id=data_id,
+            node_id=node_id,
         )
 
     def move_to(
